@@ -321,5 +321,5 @@ def classify(sweep, case, failure):
 def witness(fid):
     from fontTools.ttLib.ttFont import tagToXML, xmlToTag
     if fid == "F9":
-        return xmlToTag(tagToXML("1abc")) != "1abc"
+        return xmlToTag(tagToXML("1ab ")) != "1ab " or xmlToTag(tagToXML("OS_2")) != "OS_2"
     return None
